@@ -6,7 +6,8 @@ import DmrVerif.Model.Hdap
 `Hrnp.init` is `HRNP.__init__` (inner data given as bytes is parsed with `HDAP.from_bytes`, then
 `verify_checksum` runs), `Hrnp.fromBytes` / `Hrnp.asBytes` / `Hrnp.len` the three methods.
 `self.checksum` always holds the checksum *computed* over the object's own serialisation;
-`checksum_correct` says whether the value handed to the constructor equals it.
+`checksum_correct` says whether the value handed to the constructor equals it, and `from_bytes`
+overwrites it with the verdict on the received octets (commit 4e51d6f).
 Core Lean only.
 -/
 
@@ -82,7 +83,10 @@ def Hrnp.fromBytes (d : Bytes) : R Hrnp := do
   let source ← idx d 4
   let destination ← idx d 5
   let inner ← Hdap.fromBytes (sl d 12 plen)
-  Hrnp.init inner opcode source destination block (ofBe (sl d 6 8)) (ofBe (sl d 10 12)) (sl d 0 1) (sl d 1 2)
+  let q ← Hrnp.init inner opcode source destination block (ofBe (sl d 6 8)) (ofBe (sl d 10 12)) (sl d 0 1) (sl d 1 2)
+  -- the verdict on a received packet is about the received octets:
+  -- `calculate_checksum(data[0:10] + data[12:len]) == data[10:12]` (two byte strings)
+  pure { q with checksumCorrect := be2 (hrnpCheck (sl d 0 10 ++ sl d 12 plen)) == sl d 10 12 }
 
 def Hrnp.len (q : Hrnp) : R Nat := hrnpLen q.opcode q.data
 
